@@ -123,6 +123,97 @@ pub fn catch<R>(f: impl FnOnce() -> R) -> Result<R, PanicInfo> {
 }
 
 // ------------------------------------------------------------------------------------------------
+// in-flight case recording + watchdog (child side). The supervisor (bin/hv.rs) reads the slot
+// files when the child dies from a signal (stack overflow, abort) or reports a hang.
+
+pub struct Inflight {
+    pub dir: PathBuf,
+    files: Vec<Mutex<std::fs::File>>,
+    /// ms since process start at which the slot's current case began (0 = idle)
+    started: Vec<std::sync::atomic::AtomicU64>,
+    deadline_ms: Vec<std::sync::atomic::AtomicU64>,
+    t0: Instant,
+}
+
+pub const MAX_SLOTS: usize = 64;
+pub const DEFAULT_DEADLINE_MS: u64 = 60_000;
+
+static INFLIGHT: std::sync::OnceLock<Option<Inflight>> = std::sync::OnceLock::new();
+
+pub fn inflight() -> Option<&'static Inflight> {
+    INFLIGHT
+        .get_or_init(|| {
+            let dir = PathBuf::from(std::env::var("HV_INFLIGHT_DIR").ok()?);
+            std::fs::create_dir_all(&dir).ok()?;
+            let mut files = vec![];
+            for i in 0..MAX_SLOTS {
+                files.push(Mutex::new(
+                    std::fs::OpenOptions::new()
+                        .create(true)
+                        .write(true)
+                        .truncate(true)
+                        .open(dir.join(format!("slot-{i}.json")))
+                        .ok()?,
+                ));
+            }
+            let inf = Inflight {
+                dir,
+                files,
+                started: (0..MAX_SLOTS).map(|_| Default::default()).collect(),
+                deadline_ms: (0..MAX_SLOTS)
+                    .map(|_| std::sync::atomic::AtomicU64::new(DEFAULT_DEADLINE_MS))
+                    .collect(),
+                t0: Instant::now(),
+            };
+            Some(inf)
+        })
+        .as_ref()
+}
+
+impl Inflight {
+    pub fn begin(&self, slot: usize, check: &str, case: &impl Serialize, deadline_ms: u64) {
+        use std::os::unix::fs::FileExt;
+        let slot = slot % MAX_SLOTS;
+        let mut body = serde_json::to_vec(&json!({"check": check, "case": case})).unwrap_or_default();
+        body.push(b'\n');
+        if let Ok(f) = self.files[slot].lock() {
+            let _ = f.write_all_at(&body, 0);
+        }
+        self.deadline_ms[slot].store(deadline_ms, Ordering::Relaxed);
+        self.started[slot].store(self.t0.elapsed().as_millis() as u64 + 1, Ordering::Release);
+    }
+    pub fn end(&self, slot: usize) {
+        self.started[slot % MAX_SLOTS].store(0, Ordering::Release);
+    }
+    /// spawn the watchdog thread: exits the process with code 3 when a case exceeds its deadline
+    pub fn spawn_watchdog(&'static self) {
+        std::thread::spawn(move || {
+            loop {
+                std::thread::sleep(std::time::Duration::from_millis(250));
+                let now = self.t0.elapsed().as_millis() as u64 + 1;
+                for slot in 0..MAX_SLOTS {
+                    let st = self.started[slot].load(Ordering::Acquire);
+                    let dl = self.deadline_ms[slot].load(Ordering::Relaxed);
+                    if st != 0 && now > st + dl {
+                        let _ = std::fs::write(
+                            self.dir.join("hang"),
+                            format!("{slot} {dl}"),
+                        );
+                        std::process::exit(3);
+                    }
+                }
+            }
+        });
+    }
+}
+
+pub fn read_slot(dir: &Path, slot: usize) -> Option<Value> {
+    let s = std::fs::read(dir.join(format!("slot-{slot}.json"))).ok()?;
+    let end = s.iter().position(|b| *b == b'\n')?;
+    serde_json::from_slice(&s[..end]).ok()
+}
+
+// ------------------------------------------------------------------------------------------------
 // known findings
 
 #[derive(Debug, Clone)]
@@ -216,6 +307,7 @@ pub struct CheckStats {
     pub known_hits: BTreeMap<String, u64>,
     pub exhaustive: bool,
     pub note: Option<String>,
+    pub wall_s: f64,
 }
 
 impl CheckStats {
@@ -269,6 +361,7 @@ impl CheckStats {
             }
         }
         self.exhaustive |= o.exhaustive;
+        self.wall_s += o.wall_s;
     }
     pub fn class_count(&self, c: &str) -> u64 {
         self.classes.get(c).copied().unwrap_or(0)
@@ -281,6 +374,7 @@ impl CheckStats {
             "known_hits": self.known_hits,
             "exhaustive": self.exhaustive,
             "note": self.note,
+            "wall_s": (self.wall_s * 10.0).round() / 10.0,
         })
     }
 }
@@ -334,6 +428,11 @@ pub struct Run {
     pub level: String,
     pub extra: serde_json::Map<String, Value>,
     pub threads: usize,
+    /// record every in-flight case for the supervisor (abort / hang attribution)
+    pub guard: bool,
+    pub deadline_ms: u64,
+    /// stack size of the threads cases run on
+    pub stack: usize,
 }
 
 impl Run {
@@ -359,6 +458,9 @@ impl Run {
                 .ok()
                 .and_then(|s| s.parse().ok())
                 .unwrap_or(16),
+            guard: false,
+            deadline_ms: DEFAULT_DEADLINE_MS,
+            stack: 8 << 20,
         }
     }
 
@@ -430,7 +532,7 @@ impl Run {
         MK: Fn() -> BoxedStrategy<T> + Sync,
         F: Fn(&T, &mut CaseCtx) -> Result<(), String> + Sync,
     {
-        self.prop_opts(name, cases, 2 << 20, mk, test)
+        self.prop_opts(name, cases, self.stack, mk, test)
     }
 
     pub fn prop_opts<T, MK, F>(
@@ -446,12 +548,15 @@ impl Run {
         MK: Fn() -> BoxedStrategy<T> + Sync,
         F: Fn(&T, &mut CaseCtx) -> Result<(), String> + Sync,
     {
+        let t_start = Instant::now();
         let shards = self.threads.max(1).min(cases.max(1) as usize);
         let per = (cases as usize).div_ceil(shards) as u32;
         let min_failed = AtomicUsize::new(usize::MAX);
         let results: Mutex<Vec<(usize, CheckStats, Option<(T, String)>)>> = Mutex::new(vec![]);
         let base_seed = mix(mix(self.seed, h64(name)), h64(&self.property));
         let strict = self.strict;
+        let guard = if self.guard { inflight() } else { None };
+        let deadline_ms = self.deadline_ms;
 
         std::thread::scope(|scope| {
             for shard in 0..shards {
@@ -461,7 +566,7 @@ impl Run {
                 let results = &results;
                 let name = name.to_string();
                 std::thread::Builder::new()
-                    .stack_size(stack.max(1 << 20) + (6 << 20))
+                    .stack_size(stack.max(1 << 20) + (256 << 10))
                     .spawn_scoped(scope, move || {
                         let mut stats = CheckStats::new(&name);
                         let failed = AtomicBool::new(false);
@@ -484,6 +589,9 @@ impl Run {
                                 return Ok(());
                             }
                             let mut ctx = CaseCtx::default();
+                            if let Some(g) = guard {
+                                g.begin(shard, &name, &v, deadline_ms);
+                            }
                             let r = match catch(|| test(&v, &mut ctx)) {
                                 Ok(r) => r,
                                 Err(p) => Err(format!(
@@ -492,6 +600,9 @@ impl Run {
                                     truncate(&p.message, 300)
                                 )),
                             };
+                            if let Some(g) = guard {
+                                g.end(shard);
+                            }
                             let r = if strict && !ctx.known_hits.is_empty() {
                                 Err(format!(
                                     "strict mode: reproduces known finding {:?}",
@@ -557,6 +668,7 @@ impl Run {
             self.health_problems
                 .push(format!("check {name}: proptest aborted: {a}"));
         }
+        total.wall_s = t_start.elapsed().as_secs_f64();
         self.add_stats(total);
         match first_fail {
             None => true,
@@ -574,23 +686,30 @@ impl Run {
         T: Debug + Clone + Serialize + Sync,
         F: Fn(&T, &mut CaseCtx) -> Result<(), String> + Sync,
     {
+        let t_start = Instant::now();
         let shards = self.threads.max(1);
         let chunk = items.len().div_ceil(shards).max(1);
         let results: Mutex<Vec<(usize, CheckStats, Option<(usize, String)>)>> =
             Mutex::new(vec![]);
         let strict = self.strict;
+        let guard = if self.guard { inflight() } else { None };
+        let deadline_ms = self.deadline_ms;
+        let stack = self.stack;
         std::thread::scope(|scope| {
             for (shard, part) in items.chunks(chunk).enumerate() {
                 let test = &test;
                 let results = &results;
                 let name = name.to_string();
                 std::thread::Builder::new()
-                    .stack_size(8 << 20)
+                    .stack_size(stack.max(1 << 20) + (256 << 10))
                     .spawn_scoped(scope, move || {
                         let mut stats = CheckStats::new(&name);
                         let mut fail = None;
                         for (i, item) in part.iter().enumerate() {
                             let mut ctx = CaseCtx::default();
+                            if let Some(g) = guard {
+                                g.begin(shard, &name, item, deadline_ms);
+                            }
                             let r = match catch(|| test(item, &mut ctx)) {
                                 Ok(r) => r,
                                 Err(p) => Err(format!(
@@ -599,6 +718,9 @@ impl Run {
                                     truncate(&p.message, 300)
                                 )),
                             };
+                            if let Some(g) = guard {
+                                g.end(shard);
+                            }
                             let r = if strict && !ctx.known_hits.is_empty() {
                                 Err(format!(
                                     "strict mode: reproduces known finding {:?}",
@@ -633,6 +755,7 @@ impl Run {
             }
         }
         total.exhaustive = exhaustive && first.is_none();
+        total.wall_s = t_start.elapsed().as_secs_f64();
         self.add_stats(total);
         match first {
             None => true,
@@ -770,11 +893,12 @@ impl Run {
         }
         for s in &self.stats {
             println!(
-                "  [{}] {}: evaluations={} distinct_nontrivial={}{}",
+                "  [{}] {}: evaluations={} distinct_nontrivial={} wall_s={:.1}{}",
                 self.property,
                 s.name,
                 s.evaluations,
                 s.nontrivial.len(),
+                s.wall_s,
                 if s.exhaustive { " (exhaustive)" } else { "" }
             );
         }
@@ -846,3 +970,78 @@ pub fn pick_idx(sel: u16, len: usize) -> usize {
         ((sel as usize) * len) >> 16
     }
 }
+
+// ------------------------------------------------------------------------------------------------
+// isolated execution of one case in a fresh process (aborts, hangs)
+
+/// Wait for a child with a wall-clock limit. Returns None on timeout (child killed).
+pub fn wait_limit(
+    child: &mut std::process::Child,
+    limit: std::time::Duration,
+) -> Option<std::process::ExitStatus> {
+    let t0 = Instant::now();
+    loop {
+        match child.try_wait() {
+            Ok(Some(st)) => return Some(st),
+            Ok(None) => {
+                if t0.elapsed() > limit {
+                    let _ = child.kill();
+                    let _ = child.wait();
+                    return None;
+                }
+                std::thread::sleep(std::time::Duration::from_millis(20));
+            }
+            Err(_) => return None,
+        }
+    }
+}
+
+/// Re-run one case alone in a fresh process. Returns a description of how it ended.
+pub enum Confirm {
+    Passed,
+    Violation(String),
+    Signal(i32),
+    Timeout,
+}
+
+pub fn confirm_case(property: &str, check: &str, case: &Value, limit: std::time::Duration) -> Confirm {
+    use std::os::unix::process::ExitStatusExt;
+    let dir = Path::new(VERIF_DIR).join("work");
+    let _ = std::fs::create_dir_all(&dir);
+    let file = dir.join(format!("confirm-{}-{}.json", std::process::id(), h64(&case.to_string())));
+    let body = json!({"property": property, "check": check, "case": case});
+    if std::fs::write(&file, body.to_string()).is_err() {
+        return Confirm::Passed;
+    }
+    let mut child = match std::process::Command::new(std::env::current_exe().expect("current_exe"))
+        .arg("replay-child")
+        .arg(&file)
+        .env("HV_CHILD", "1")
+        .stdout(std::process::Stdio::piped())
+        .stderr(std::process::Stdio::null())
+        .spawn()
+    {
+        Ok(c) => c,
+        Err(_) => return Confirm::Passed,
+    };
+    let st = wait_limit(&mut child, limit);
+    let mut out = String::new();
+    if let Some(mut o) = child.stdout.take() {
+        use std::io::Read;
+        let _ = o.read_to_string(&mut out);
+    }
+    let _ = std::fs::remove_file(&file);
+    match st {
+        None => Confirm::Timeout,
+        Some(st) => {
+            if let Some(sig) = st.signal() {
+                Confirm::Signal(sig)
+            } else if st.code() == Some(0) {
+                Confirm::Passed
+            } else {
+                Confirm::Violation(out)
+            }
+        }
+    }
+}
+
